@@ -492,6 +492,7 @@ func extractLogic(repo string) (string, []string, error) {
 		{"tooLarge", "def tooLarge (msz batchBytes : Nat) : Bool := untranslated (msz, batchBytes)", piece_tooLarge},
 		{"defaults", "def effBatchSize (n : Nat) : Nat := if untranslated n then 0 else 0\ndef effBatchBytes (n : Nat) : Nat := if untranslated n then 0 else 0\ndef effMaxAttempts (n : Nat) : Nat := if untranslated n then 0 else 0", piece_defaults},
 		{"timerArm", "def timerArmSites : List String := []", piece_timerArm},
+		{"readRecord", "def readRecordResets : Bool := untranslated ()", piece_readRecord},
 	}
 	var sb strings.Builder
 	var failed []string
